@@ -374,3 +374,8 @@ package main
 //@   modifies nothing
 //@   ensures len(result) == 0 ==> forall(i, 0, len(unavailable), !(interpHas(unavailable[i]) || userFn(module, unavailable[i])))
 //@   loop 1 invariant 0 <= rangeidx && (len(names) == 0 ==> forall(i, 0, rangeidx, !(interpHas(unavailable[i]) || userFn(module, unavailable[i])))) && (cap(names) == 0 || fresh(names))
+
+// ---- the dispatcher asks the router about the request as it is (C05): its own method, its own path - a request that
+// ---- matches no declaration for its method is not re-matched under another method
+//@ func createHandler$1
+//@   callpremust (*server.Router).Match arg1 == server.HTTPMethod(r.Method) && arg2 == r.URL.Path
